@@ -37,7 +37,7 @@ from __future__ import annotations
 import itertools
 import zlib
 from functools import lru_cache
-from typing import Any, Callable, List, Optional, Tuple
+from typing import Any, Callable, List, Tuple
 
 from mc.clients import ws_h1_handshake, ws_h2_headers
 from mc.explore import V
@@ -65,7 +65,7 @@ ASSUMPTIONS = [
 BOUNDS_DOC = {
     "quick": "messages<=2 (+3 unfragmented), K<=2 frames/message, <=1 ping, all 2-way splits + bytewise; sched M<=1,S<=1",
     "thorough": "messages<=3, K<=3 frames/message (pairs K<=2, triples mid cut only), <=2 pings, all 2-way splits + bytewise; "
-                "sched M<=2,S<=2, trio R<=1",
+                "sched asyncio M<=2, trio M<=1 with R<=1",
 }
 BUDGET = {"quick": 100, "thorough": 1150}
 
@@ -236,7 +236,9 @@ def bounds(tier: str, params: Any) -> dict:
         return {"M": 0, "S": 0, "R": 0}
     if tier == "quick":
         return {"M": 1, "S": 1, "R": 0}
-    return {"M": 2, "S": 2, "R": 1 if params[1] == "trio" else 0}
+    if params[1] == "trio":  # trio has ~3x the boundaries plus the batch-order choices: M=2 with R=1 is ~5*10^4 per scenario
+        return {"M": 1, "S": 1, "R": 1}
+    return {"M": 2, "S": 2, "R": 0}
 
 
 # ---------------------------------------------------------------------------------------------
